@@ -806,10 +806,11 @@ class SamplingMethod(DirectMethod):
         for offset in offsets.keys():
             if k==-1 and offset>0:
                 raise IndexError()
-            if k+offset<0:
+            k_abs = self.N if k==-1 else k # final node is node N
+            if k_abs+offset<0:
                 raise IndexError()
             subst_from.append(vvcat(symbols[offset]))
-            subst_to.append(self._eval_at_control(stage, vvcat(offsets[offset]), k+offset))
+            subst_to.append(self._eval_at_control(stage, vvcat(offsets[offset]), k_abs+offset))
             #print(expr, subst_from, subst_to)
 
 
